@@ -927,6 +927,34 @@ func ruleC13Parser(p *Program, r *Run) {
 	default:
 		r.Check(jc.bad == "", "C13/joinkind", key, p.Pos(jfd.Pos()), fmt.Sprintf("every return after a missed joinTypes lookup carries a non-nil error (%d path states)", jc.misses), jc.bad+": an unknown join kind would be accepted by the parser")
 	}
+	// the kinds the parser lets through are exactly the documented ones (the compiler may rely on that)
+	{
+		kinds, jt := p.parserJoinKinds()
+		var extra, missing []string
+		for k := range kinds {
+			if _, doc := docJoinKinds[k]; !doc {
+				extra = append(extra, k)
+			}
+		}
+		for k := range docJoinKinds {
+			if !kinds[k] {
+				missing = append(missing, k)
+			}
+		}
+		sort.Strings(extra)
+		sort.Strings(missing)
+		why := ""
+		if len(extra) > 0 {
+			why += "kinds accepted by the parser but not documented: " + strings.Join(extra, ", ") + " (a join of such a kind compiles, or compiles as another kind, instead of being rejected)"
+		}
+		if len(missing) > 0 {
+			if why != "" {
+				why += "; "
+			}
+			why += "documented kinds the parser rejects: " + strings.Join(missing, ", ")
+		}
+		r.Check(why == "", "C13/joinkind", "parser.joinTypes is the documented set of join kinds", p.Pos(jt.Pos()), "inner, innerunique, leftouter", why)
+	}
 	r.Floor("C13/joinkind", 1)
 }
 
